@@ -10,7 +10,7 @@ EXTENDS Naturals, Sequences, FiniteSets, TLC, Json, IOUtils
 CONSTANTS Export
 
 Protos == {"raw", "json", "pb", "thriftbin", "thriftstruct", "wsjson", "wspb"}
-Codecs == {"j", "x", "f", "s", "p", "t"}     \* json, xml, form, plain, protobuf, thrift
+Codecs == {"j", "x", "f", "s", "p", "t", "b"}     \* json, xml, form, plain, protobuf, thrift; "b": raw byte bodies (argument and result are byte slices)
 Pipes  == {"", "g", "m", "gm", "mg"}         \* gzip / md5 filters, outermost first
 \* the JSON protocol carries the body as a JSON string: text codecs only;
 \* the thrift struct protocol carries a thrift struct in place: thrift codec only, no filter pipe
@@ -19,21 +19,26 @@ Pipes  == {"", "g", "m", "gm", "mg"}         \* gzip / md5 filters, outermost fi
 Capable(p, c) == /\ (p \in {"json", "wsjson"} => c \notin {"p", "t"})
                  /\ (p = "wspb" => c # "t")
                  /\ (p = "thriftstruct" => c = "t")
+                 /\ (c = "b" => p \in {"raw", "pb"})
 PipeOK(p, pp) == /\ (p \in {"thriftstruct", "wsjson"} => pp = "")
                  /\ (p = "wspb" => pp \in {"", "g"})
-Profiles == { [sessions |-> 1, gor |-> 1,  size |-> 0,     hold |-> 0, barrier |-> FALSE, mixed |-> FALSE],
-              [sessions |-> 2, gor |-> 4,  size |-> 255,   hold |-> 3, barrier |-> FALSE, mixed |-> FALSE],
-              [sessions |-> 1, gor |-> 16, size |-> 4096,  hold |-> 3, barrier |-> FALSE, mixed |-> FALSE],
-              [sessions |-> 3, gor |-> 4,  size |-> 70000, hold |-> 0, barrier |-> FALSE, mixed |-> FALSE],
-              [sessions |-> 2, gor |-> 4,  size |-> 256,   hold |-> 3, barrier |-> FALSE, mixed |-> FALSE],
-              [sessions |-> 1, gor |-> 4,  size |-> 1,     hold |-> 3, barrier |-> FALSE, mixed |-> FALSE],
+Profiles == { [sessions |-> 1, gor |-> 1,  size |-> 0,     hold |-> 0, barrier |-> FALSE, mixed |-> FALSE, secure |-> FALSE],
+              [sessions |-> 2, gor |-> 4,  size |-> 255,   hold |-> 3, barrier |-> FALSE, mixed |-> FALSE, secure |-> FALSE],
+              [sessions |-> 1, gor |-> 16, size |-> 4096,  hold |-> 3, barrier |-> FALSE, mixed |-> FALSE, secure |-> FALSE],
+              [sessions |-> 3, gor |-> 4,  size |-> 70000, hold |-> 0, barrier |-> FALSE, mixed |-> FALSE, secure |-> FALSE],
+              [sessions |-> 2, gor |-> 4,  size |-> 256,   hold |-> 3, barrier |-> FALSE, mixed |-> FALSE, secure |-> FALSE],
+              [sessions |-> 1, gor |-> 4,  size |-> 1,     hold |-> 3, barrier |-> FALSE, mixed |-> FALSE, secure |-> FALSE],
               \* all goroutines of the session issue their next operation at the same instant (released from a barrier)
-              [sessions |-> 1, gor |-> 32, size |-> 16,    hold |-> 0, barrier |-> TRUE, mixed |-> FALSE],
+              [sessions |-> 1, gor |-> 32, size |-> 16,    hold |-> 0, barrier |-> TRUE, mixed |-> FALSE, secure |-> FALSE],
               \* mixed outcomes: among the concurrent calls some handlers return a status of their own and some routes do not exist
-              [sessions |-> 2, gor |-> 8,  size |-> 64,    hold |-> 1, barrier |-> FALSE, mixed |-> TRUE] }
+              [sessions |-> 2, gor |-> 8,  size |-> 64,    hold |-> 1, barrier |-> FALSE, mixed |-> TRUE, secure |-> FALSE],
+              \* both peers carry the shipped secure plugin and an accept hook that leaves an entry in the swap of every session;
+              \* every message is marked secure (the plugin keeps per-message state in the message's own swap between two hooks)
+              [sessions |-> 1, gor |-> 8,  size |-> 64,    hold |-> 1, barrier |-> FALSE, mixed |-> FALSE, secure |-> TRUE] }
 \* the websocket protobuf sub-protocol cannot carry a status (known finding of C05): no failing calls over it
 MixedOK(p, prof) == prof.mixed => p # "wspb"
-Cells == {c \in [proto : Protos, codec : Codecs, pipe : Pipes, prof : Profiles] : Capable(c.proto, c.codec) /\ PipeOK(c.proto, c.pipe) /\ MixedOK(c.proto, c.prof)}
+SecureOK(c) == c.prof.secure => c.proto \in {"raw", "pb"} /\ c.codec \in {"j", "p"} /\ c.pipe \in {"", "g"}
+Cells == {c \in [proto : Protos, codec : Codecs, pipe : Pipes, prof : Profiles] : Capable(c.proto, c.codec) /\ PipeOK(c.proto, c.pipe) /\ MixedOK(c.proto, c.prof) /\ SecureOK(c)}
 
 VARIABLES cell, done
 vars == <<cell, done>>
@@ -44,6 +49,6 @@ Spec == Init /\ [][Run]_vars
 CapOK == Capable(cell.proto, cell.codec) /\ PipeOK(cell.proto, cell.pipe)
 Emit == Export = "" \/
         Serialize(ToJson([proto |-> cell.proto, codec |-> cell.codec, pipe |-> cell.pipe, sessions |-> cell.prof.sessions,
-                          gor |-> cell.prof.gor, size |-> cell.prof.size, hold |-> cell.prof.hold, barrier |-> cell.prof.barrier, mixed |-> cell.prof.mixed]) \o "\n", Export,
+                          gor |-> cell.prof.gor, size |-> cell.prof.size, hold |-> cell.prof.hold, barrier |-> cell.prof.barrier, mixed |-> cell.prof.mixed, secure |-> cell.prof.secure]) \o "\n", Export,
                   [format |-> "TXT", charset |-> "UTF-8", openOptions |-> <<"WRITE", "CREATE", "APPEND">>]).exitValue = 0
 =============================================================================
